@@ -430,6 +430,7 @@ def faultModelled (r : RawOp) : Bool :=
   | 'N' | 'D' | 'C' | 'M' | 'X' | 'c' | 'm' | 'R' | 'P' | 'U' | 'h' | 'H' => true
   | 'S' | 'b' | 'B' | 'G' | 'g' => true      -- compared only when the clean run does not throw (see below)
   | 'a' | 'e' => true
+  | 'p' | 'T' | 'E' => true                  -- the result buffer of a conversion / concatenation is a local that is destroyed by unwinding (`fresh`)
   | _ => false
 
 /-- a `k<i>=<exc>|<snapshot>|<end>` token -/
